@@ -6,7 +6,9 @@ import vlib
 
 
 def judge(ctx, programs, name, chunks=None, timeout=3600, profile="release"):
-    return vlib.run_and_judge(ctx, programs, "Trace_Aml.cfg", "Trace_Aml.tla", name, chunks=chunks, timeout=timeout, profile=profile)
+    # the recursive-descent parser recurses once per term: give the evaluator a deeper stack than the default 16m
+    return vlib.run_and_judge(ctx, programs, "Trace_Aml.cfg", "Trace_Aml.tla", name, chunks=chunks, timeout=timeout, profile=profile,
+                              env={"TLC_XSS": "256m"})
 
 
 def mc_corpus(ctx, programs, name="corpus", pieces=8):
